@@ -198,6 +198,22 @@ def round_trip_user(E, cfg):
     X = C.mk_cls('XLen', ref_unit_symbol='x0')
     syms = ['µx', 'kg·m/s²x', 'fl oz', 'x²', 'a/b', 'Ω', '1x', 'e', '-', '.5', 'x y']
     s = E.choice('sym', syms)
+    if E.choice('parsed-before-declaration', [False, True]):
+        # text naming the symbol before any unit has it: rejected; the later declaration makes the same text valid
+        from quantity import QuantityError
+        for label, fn in (('generic', lambda: Quantity('7 ' + s)), ('own-type', lambda: X('7 ' + s)),
+                          ('explicit-unit', lambda: Quantity('7 ' + s, X.ref_unit))):
+            C.expect_raises(E, fn, QuantityError, 'undeclared-symbol-text-rejected-' + label, [s])
+        from quantity.money import Money
+        C.expect_raises(E, lambda: Quantity('100 JPY'), QuantityError, 'unregistered-currency-text-rejected')
+        jpy = Money.register_currency('JPY')
+        try:
+            m = Quantity('100 JPY')
+        except Exception as e:
+            E.fail('currency-text-after-registration', key='text:late-declaration-raises:%s' % type(e).__name__, info=['JPY'])
+        else:
+            E.check(type(m) is Money and m.unit is jpy and m.amount == 100, 'currency-text-after-registration',
+                    key='text:late-declaration', info=['JPY'])
     u = X.new_unit(s, None, Fraction(5, 2) * X.ref_unit)
     x = E.rational('x', 'dec')
     _round_trip_checks(E, Quantity(x, u), [s])
